@@ -59,7 +59,12 @@ pub fn run_once(cfg: &Cfg, progress: bool) -> Result<Vec<u64>, String> {
             let proposal = if cfg.kind == Kind::Mh {
                 IsotropicGaussian::<f64>::new(0.9).set_seed(cfg.prop_seed)
             } else {
-                IsotropicGaussian::<f64>::new(0.9)
+                // a freshly constructed proposal that the user may have tried out before handing it over
+                let mut p = IsotropicGaussian::<f64>::new(0.9);
+                if cfg.prop_seed % 2 == 0 {
+                    let _ = p.sample(&[0.0, 0.0, 0.0]);
+                }
+                p
             };
             let mut s = MetropolisHastings::new(IsotropicGaussian::<f64>::new(1.5), proposal, cfg.inits.clone()).seed(cfg.seed);
             let a = if progress {
